@@ -440,7 +440,7 @@ func (S *Sorts) prelude() string {
 	// part of the recursive block; outside it a key sort that is itself in the block (Dyn) is allowed
 	for _, m := range S.maps {
 		fmt.Fprintf(&sb, "(declare-datatypes ((%s 0)) (((%s (%s (Array %s Bool)) (%s (Array %s %s)) (%s Int)))))\n",
-			m.name, m.ctor(), m.present(), S.sortOf(m.k), m.vals(), S.sortOf(m.k), S.sortOf(m.v), m.size())
+			m.name, m.ctor(), m.present(), S.keySort(m.k), m.vals(), S.keySort(m.k), S.sortOf(m.v), m.size())
 	}
 	return sb.String()
 }
@@ -644,4 +644,14 @@ func splitAnd(t Term) []Term {
 		out = append(out, splitAnd(Term(p))...)
 	}
 	return out
+}
+
+// keySort: the index sort of the arrays that model a Go map. String keys are interned: Go compares
+// them by contents, so the arrays are indexed by an integer identity of the contents (str.id), not by
+// the string term (whose sort contains an array and makes array reasoning incomplete).
+func (S *Sorts) keySort(k types.Type) string {
+	if b, ok := k.Underlying().(*types.Basic); ok && b.Info()&types.IsString != 0 {
+		return "Int"
+	}
+	return S.sortOf(k)
 }
